@@ -3,6 +3,7 @@ import Rare.Model.C12
 import Rare.Model.C12Go
 import Rare.Spec.C12Grammar
 import Rare.Spec.C12Lazy
+import Rare.Model.C12Rx
 import Rare.Model.C16
 namespace Rare.Drv.C12
 open Rare Rare.C12 Rare.Proto
@@ -115,7 +116,12 @@ def handle : List String → String
       | some e => s!"err {specErrName e}"
       | none =>
         let f := if ic == "1" then lazyDissectIC p else lazyDissect p
-        s!"ok r={renderRes (lines.map fun l => (f l).map (·.map Int.ofNat))}"
+        let rs := lines.map fun l => (f l).map (·.map Int.ofNat)
+        -- seam C12/C02: C02's model of the regexp engine on the pattern's expression (`dissect_eq_regexp_model`)
+        let q := if ic == "1" then p.lowerLits else p
+        let rx := lines.map fun l => rxDissect q (if ic == "1" then lower l else l)
+        if rx != rs then s!"c02-c12-disagree rx={renderRes rx} lazy={renderRes rs}"
+        else s!"ok r={renderRes rs}"
     | _, _, _, _ => "bad-args"
   -- the GRAMMAR (one-pass recogniser of `Spec/C12Grammar.lean`) against `CompileEx`: the answer is the
   -- recogniser's verdict and the model's error class; when recogniser and model disagree the answer is
